@@ -353,6 +353,9 @@ func (rt *runtimeS) quiesce() {
 	rt.w.mu.Unlock()
 	for _, i := range sortedKeys(rt.clis) {
 		cc := rt.clis[i]
+		if cc.cc == nil {
+			continue
+		}
 		e := ev("CReg")
 		e.Conn, e.N = i, cc.cc.VerifRegistrySize()
 		tr.emit(e)
@@ -518,7 +521,15 @@ func (rt *runtimeS) step(st Step) {
 		p.with(func() { p.auto = st.On })
 	case "stuck":
 		p := rt.pipeOf(conn, st.Dir)
-		p.with(func() { p.stuck = st.On })
+		p.with(func() {
+			p.stuck = st.On
+			e := ev("Fault")
+			if !st.On {
+				e = ev("Unfault")
+			}
+			e.Conn, e.K = conn, map[string]string{"c2s": "cstuck", "s2c": "sstuck"}[st.Dir]
+			tr.emit(e)
+		})
 	case "fault":
 		e := ev("Fault")
 		e.Conn, e.K = conn, st.What
